@@ -1,6 +1,6 @@
 """Registry: per property, what is proved (Coq files), what is compared (harness modes / checks), how cases are made."""
 import itertools, random
-import gen
+import gen, gens
 
 TB_COMMON = [
     "Coq 8.16.1 kernel (coqc); vm_compute for finite facts; no native_compute",
@@ -56,6 +56,15 @@ def gen_C09(rng, tier):
     return cases
 
 
+def P(coq_files, checks, gen_fn, rule, level="proof", **kw):
+    d = {"coq_files": coq_files, "runs": [("validate", "V", checks)], "x_checks": [], "gen": gen_fn, "level": level,
+         "rule": rule, "trusted_base": TB_COMMON, "assumptions": ASSUME_VALID}
+    d.update(kw)
+    return d
+
+
+MASTER = ["Spec/Master.v", "Proofs/Master.v"]
+
 PROPS = {
     "C09": {
         "coq_files": ["Spec/Methods.v", "Proofs/Methods.v", "Properties/C09.v"],
@@ -69,4 +78,24 @@ PROPS = {
         "trusted_base": TB_COMMON,
         "assumptions": ASSUME_VALID,
     },
+    "C05": P(["Spec/Scoping.v", "Proofs/Scoping.v"] + MASTER + ["Properties/C05.v"], ["corr_C05", "spec_C05"],
+             gens.gen_projects,
+             "hand-picked naming relations (ambiguous imports, partial qualification, built-ins imported or not, duplicate keys) + "
+             "random projects of 1-6 files with adversarially similar names, references in all four positions nested to depth 4"),
+    "C06": P(["Spec/Scoping.v", "Proofs/Scoping.v"] + MASTER + ["Properties/C06.v"], ["corr_C06", "spec_C06"],
+             gens.gen_projects,
+             "same project stream as C05: import lists with duplicates, unresolvable, resolvable-unused, used only deep inside "
+             "generics, built-in imports; forward declarations qualified/unqualified, duplicated, shadowed by imports"),
+    "C07": P(["Spec/Categories.v", "Proofs/Direction.v"] + MASTER + ["Properties/C07.v"], ["corr_C07", "spec_C07"],
+             gens.gen_C07,
+             "exhaustive: 17 type categories (multi-file support project) x {none,in,out,inout} x method oneway x interface "
+             "oneway x 3 argument positions = 816 cases; plus random projects"),
+    "C08": P(["Spec/Elements.v", "Proofs/Elements.v"] + MASTER + ["Properties/C08.v"], ["corr_C08", "spec_C08"],
+             gens.gen_C08,
+             "exhaustive container shapes to nesting depth 2 over all 17 leaf categories (depth 3: sample of 12000 in thorough), "
+             "12 per file, rotating through field / return / argument / constant position; plus random projects"),
+    "C10": P(["Spec/Oneway.v", "Proofs/Oneway.v"] + MASTER + ["Properties/C10.v"], ["corr_C10", "spec_C10"],
+             gens.gen_C10,
+             "exhaustive: interface oneway x method oneway x 17 return categories; 2-3 methods over {void,int,Par,Nope} x oneway "
+             "with constants mixed in (3 methods sampled 25% in quick); oneway keyword after annotations/comments; random projects"),
 }
